@@ -10,6 +10,8 @@ package c01
 import (
 	"context"
 	"fmt"
+	"os"
+	"runtime"
 	"slices"
 	"testing"
 	"testing/synctest"
@@ -193,6 +195,12 @@ func exploreOne(rep *kit.Report, sp kit.Spec, h handlerCfg, label string, maxSta
 			sig := "c01:" + b[:1]
 			rep.Violate(sig, fmt.Sprintf("%s :: handlers=%v %s", b, h, t), replayT{t.Replay(), h})
 		}
+		// handler-bound machines hold a goroutine each: release them in
+		// batches (a 5-state family makes half a million of them)
+		if len(machines) >= 512 {
+			disposeAll(machines)
+			machines = machines[:0]
+		}
 	})
 	rep.Add("states", int64(st))
 	rep.Add("transitions", int64(tr))
@@ -201,6 +209,10 @@ func exploreOne(rep *kit.Report, sp kit.Spec, h handlerCfg, label string, maxSta
 		rep.NotExhaustive("state cap hit for " + sp.String())
 	}
 	// release handler goroutines (fake time inside the bubble)
+	disposeAll(machines)
+}
+
+func disposeAll(machines []*am.Machine) {
 	for _, m := range machines {
 		m.Dispose()
 	}
@@ -300,6 +312,11 @@ func TestCheck(t *testing.T) {
 			return
 		}
 		j := jobs[i]
+		if os.Getenv("C01_TRACE") != "" {
+			var ms runtime.MemStats
+			runtime.ReadMemStats(&ms)
+			fmt.Fprintf(os.Stderr, "job %d %s h=%s heap=%dMB\n", i, j.label, j.h.Kind, ms.HeapAlloc>>20)
+		}
 		if j.h.Kind == "none" {
 			exploreOne(rep, j.sp, j.h, j.label, 3000)
 		} else {
